@@ -15,17 +15,47 @@ import operator
 
 import common
 from common import enc, dec, err_kind
+from props import c07_hist as H
 
 ID = "C07"
 RULE = ("random expression trees (depth<=3 quick / <=4 thorough) over Laurent polynomials with support in [-4,6] and "
         "Fraction coefficients, law vectors on random triples (p,q,r,n,c,v), eq/hash pairs (permuted / rebuilt / "
-        "perturbed), Lagrange point sets (0..6 points, mostly distinct abscissae); non-trivial = the impl returned a "
-        "non-empty polynomial, a law vector, a comparison or interpolated values; distinct = distinct JSON case")
+        "perturbed), Lagrange point sets (0..6 points, mostly distinct abscissae); large parameters (powers / orders / "
+        "supports around 63-65, 127-129, 4095-4097, 16/17(33) interpolation points); HISTORIES (entry hist, "
+        "props/c07_hist.py) of 1..12 (long: 64..400) steps on a pool of Poly objects that are shared, assigned into "
+        "(p[k] = c, also c = 0, float / bool keys; p.zero = 0), hashed and re-used: shapes memo (op; assignment into an "
+        "operand or into the result; the same op again), twin (the same call with numerically equal int / bool / float / "
+        "complex / Fraction arguments, every order), objtwin (numerically equal Polys of different coefficient types, the "
+        "same op on each), lag (lagrange.func / lagrange.poly / resample on numerically equal abscissae or points of "
+        "different types and in 8 container kinds), hashed, src (the caller's own list / dict / OrderedDict given to "
+        "Poly(...) and changed afterwards), walk, long; non-trivial = the impl returned a non-empty polynomial, a law "
+        "vector, a comparison, interpolated values, or a history with a value-returning step; distinct = distinct JSON case")
 TRUSTED = [
     "hand-written Lean model ALV/Model/C07.lean of lazy_poly.Poly / lagrange (modelled, not verified: OrderedDict as "
     "association list, Python's Fraction arithmetic as a field, int*Fraction / Fraction**int as ofIntA / powInt)",
     "float / complex powers, Stream coefficients, __str__, roots (numpy) are outside the model",
     "hash: the model gives the canonical form of frozenset(items); CPython's hash() of it is trusted",
+    "histories: hand-written Lean model ALV/Model/C07Hist.lean of object identity, in-place assignment and the `_hash` "
+    "freeze (heap of objects, the caller's variables, the caller's containers; modelled, not verified); "
+    "`__setitem__` tests `getattr(self, '_hash', False)`, so an instance whose hash VALUE is 0 still accepts item "
+    "assignment: not modelled",
+    "histories: lagrange.func / lagrange.poly / resample are pure functions in the model — that a call does not depend "
+    "on the calls before it holds there by construction (no theorem); it is the tie that checks it on the real code: "
+    "every step of a history is compared with the model of that step taken alone",
+    "histories: `resample` — which samples are in the window and at which abscissa it is read is re-computed by the "
+    "harness (c07_hist.resample_queries; that bookkeeping is property C19's); C07 checks that every output is the value "
+    "of the interpolator through that window",
+    "histories: numerically equal arguments of other numeric types — the Lean side computes on the rational value; "
+    "float / complex answers are compared within 1e-9 (terms below 1e-12 pruned; once rounding residue makes a float "
+    "operand's number of terms differ from the model's, the later steps on inexact operands are not compared); that a "
+    "step with exact inputs (int / bool / Fraction and no Python int / int or int ** -n) answers in exact numbers is "
+    "checked on the Python types",
+    "histories: model-free oracles — the same step of the real code on pristine copies "
+    "Poly(OrderedDict(p.terms(sort=False)), zero=p.zero) of the operands' current contents; the contents of every "
+    "variable and of the caller's containers read again after every step; `is` between a result and every earlier object",
+    "histories: the first 250 histories of a run, and every history once one has failed, run in a process forked from a "
+    "zygote that has imported the library and run nothing (c07_hist.zygote_start); a case that fails only after the "
+    "earlier cases of the run is reported as a broken correspondence, not as the failing input",
 ]
 ASSUMPTIONS = [
     "exact regime only: Fraction coefficients / evaluation points and zero=Fraction(0) (the default float zero 0. "
@@ -34,10 +64,20 @@ ASSUMPTIONS = [
     "count); the property quantifies over exponents 0..bounded, the spec leaves that case undefined, the model reproduces it",
     "evaluation at v=0 of a Poly with negative powers returns the constant coefficient (x=0 shortcut); the property "
     "states the shortcut for polynomials only",
+    "`p ** n` on at least two terms with n <= 1, n != 0 returns the object p itself (reduce(mul, [] + [self])); the "
+    "model reproduces it (Props.C07.hist_alias_only_pow_self) but the property does not ask for it: histories never "
+    "assign into / hash such a result or its base afterwards, and a result that is a new object where the model returns "
+    "p is accepted, so that a refactor returning a copy raises no alarm; every OTHER result has to be a new object "
+    "(Poly instances are mutable until hashed, so a shared result would let a later assignment change another value)",
+    "histories use zero=Fraction(0) objects; the `zero` setter is exercised with values equal to zero (0, False, "
+    "Fraction(0)) only; lagrange.poly results (zero=0.) are observed and then changed by the harness (p[97] = 1), "
+    "they do not enter the pool",
 ]
 MANIFEST = {
-    "technique": "Lean 4 proof (association-list model interpreted into Mathlib's Laurent polynomial ring K[T;T⁻¹]) + "
-                 "differential tie on expression trees in the exact Fraction regime",
+    "technique": "Lean 4 proof (association-list model interpreted into Mathlib's Laurent polynomial ring K[T;T⁻¹]; heap "
+                 "model of mutable instances with invariant / freshness / frame theorems over all histories) + "
+                 "differential tie on expression trees in the exact Fraction regime and on histories of shared, mutated "
+                 "and re-used objects with arguments of every numeric type",
 }
 
 Z = F(0)
@@ -250,7 +290,61 @@ def generate(rng, tier, scale=1):
         cases.append(_gen_eq(rng))
     for i in range(n_lag):
         cases.append(_gen_lagrange(rng, 5 if quick else 7))
-    return cases
+    if scale == 1:
+        cases.extend(_big_cases(rng, tier))
+    # histories (shared, mutated and re-used objects; numerically equal arguments of different types) come first: the
+    # first H.ISO_ALWAYS of them run in a fresh process each, before this process has touched the library
+    return H.gen_hist(rng, tier, scale) + cases
+
+
+def _big_cases(rng, tier):
+    """large parameters with cheap exact arithmetic: powers, orders and supports around 63/64/65, 127/128/129 and
+    4095/4096/4097 (monomial powers, binomial powers, dense products, Horner on dense and on sparse supports with
+    merged steps, n-th derivatives, composition, item assignment far out, interpolators on 16/17 (33) points)"""
+    quick = tier == "quick"
+    out = []
+    small = [1, -1, 2, -2, 3, "1/2", "-1/2", "3/2"]
+
+    def dense(n):
+        return ["list", [rng.choice(small) for _ in range(n + 1)]]
+
+    def ex(t, vs=(1, -1, 2, "1/2"), ks=(0, 64, 4096)):
+        out.append({"entry": "expr", "expr": t, "vs": list(vs), "ks": list(ks), "big": True})
+    sizes = [63, 64, 65] + ([] if quick else [127, 128, 129, 255, 256, 257])
+    for n in [63, 64, 65, 127, 128, 129, 4095, 4096, 4097, -63, -64, -65, -4096]:
+        ex(["pow", ["dict", [[rng.choice([1, -1, 2]), rng.choice(["1/2", -2, "3/2", 1])]]], n], vs=(1, -1, 2))
+    for n in sizes:
+        ex(["pow", ["list", [1, 1]], n])
+        ex(["pow", ["dict", [[0, 1], [1, "-1/2"]]], n], vs=(1, 2, "1/2"))
+        ex(["pow", ["dict", [[-1, 1], [1, 1]]], n], vs=(1, -1, 2))
+    for a, b in [(63, 64), (64, 65)] + ([(33, 127)] if quick else [(127, 128), (128, 129)]):
+        ex(["mul", dense(a), dense(b)], vs=(1, -1, "1/2"))
+        ex(["sub", ["mul", dense(a), dense(b)], dense(a + b)], vs=(1, -1))
+    for n in [63, 64, 65, 127, 128, 129, 255, 256, 257] + ([] if quick else [1023, 1024, 1025]):
+        ex(dense(n), vs=(1, -1, 2, "1/2", "-3/2"), ks=(0, n, n + 1))
+    sparse = [0, 1, 63, 64, 65, 127, 128, 129, 4095, 4096, 4097]
+    for _ in range(3 if quick else 12):
+        ks = sorted(rng.sample(sparse, rng.randint(4, 9)))
+        p = ["dict", [[k, rng.choice(small)] for k in rng.sample(ks, len(ks))]]
+        ex(p, vs=(1, -1, 2, "1/2"), ks=(0, 64, 4096, 4097))
+        lp = ["dict", [[k * rng.choice([1, -1]), rng.choice(small)] for k in rng.sample(ks, len(ks)) if k]]
+        ex(lp, vs=(1, -1, 2, "-1/2"))
+        for d in (63, 64, 65):
+            ex(["diff", p, d], vs=(1, -1))
+        ex(["integ", p], vs=(1, -1))
+        ex(["mul", p, lp], vs=(1, -1, 2))
+        ex(["setitem", dense(64), rng.choice([4095, 4096, 4097, -4096]), rng.choice(small + [0])], vs=(1, 2))
+    for n in (63, 64, 65):
+        ex(["comp", ["dict", [[n, 1], [n - 1, -1], [0, 1]]], ["list", [1, 1]]], vs=(1, -1, "1/2"))
+        ex(["comp", ["dict", [[n, 1], [1, 2]]], ["dict", [[-1, "1/2"]]]], vs=(1, 2))
+        ex(["integ", dense(n)], vs=(1, -1))
+        ex(["diff", dense(n), n - 1], vs=(1, 2))
+    for n in ([16, 17] if quick else [16, 17, 32, 33]):
+        xs = list(range(n))
+        rng.shuffle(xs)
+        out.append({"entry": "lagrange", "pairs": [[x, rng.choice(small)] for x in xs], "ks": ["1/2", -1, n], "big": True})
+        out.append({"entry": "lagrange", "pairs": [[enc(F(x, 2)), rng.choice(small)] for x in xs], "ks": ["1/3"], "big": True})
+    return out
 
 
 def _fixed_cases():
@@ -487,6 +581,16 @@ def _laws(c):
 
 
 def impl(c):
+    if c["entry"] == "hist":
+        return H.impl(c)
+    return _impl_plain(c)
+
+
+def request(c):
+    return H.request(c) if c["entry"] == "hist" else c
+
+
+def _impl_plain(c):
     e = c["entry"]
     if e == "expr":
         del _BR[:]
@@ -579,6 +683,26 @@ def _prune(terms, tol):
 
 
 def compare(c, io, drv):
+    if c["entry"] == "hist":
+        return H.compare(c, io, drv)
+    out = _compare_plain(c, io, drv)
+    if out and not io.get("isolated"):
+        # a witness has to fail by itself: once more in a fresh process that has run nothing else
+        io2 = H.isolated(c)
+        if io2 is not None:
+            out2 = _compare_plain(c, io2, drv)
+            io.clear()
+            io.update(io2)
+            if not out2:
+                io["only_after_earlier_cases"] = True
+                # not a self-contained witness: reported as a broken correspondence, never as the failing input
+                return [("model", "only after the earlier cases of this run (agrees when run alone in a fresh process: the "
+                                  "library keeps state somewhere): " + d) for _, d in out]
+            return out2
+    return out
+
+
+def _compare_plain(c, io, drv):
     out = []
     e = c["entry"]
     m, s = drv.get("model"), drv.get("spec")
@@ -684,6 +808,8 @@ def compare(c, io, drv):
 
 
 def nontrivial(c, io):
+    if c["entry"] == "hist":
+        return H.nontrivial(c, io)
     if "err" in io:
         return False
     e = c["entry"]
@@ -711,6 +837,10 @@ def _depth(t):
 def tally(eng, c, io):
     e = c["entry"]
     eng.count("entry", e)
+    if c.get("big"):
+        eng.count("big_case", (c["expr"][0] if e == "expr" else "lagrange, %d points" % len(c["pairs"])))
+    if e == "hist":
+        return H.tally(eng, c, io)
     eng.count("regime", "float (impl-injected, tol 1e-9)" if io.get("float") else "exact")
     if e == "expr":
         t = c["expr"]
@@ -798,6 +928,15 @@ def _shrink_tree(t):
 
 def shrink(c):
     e = c["entry"]
+    if e == "hist":
+        n = 0
+        for c2 in H.shrink(c):
+            if H.valid(c2):
+                yield c2
+                n += 1
+                if n >= 200:
+                    return
+        return
     if e == "expr":
         n = 0
         for t in _shrink_tree(c["expr"]):
@@ -865,6 +1004,10 @@ def neighbours(c):
 
 def classify(c, io, drv):
     e = c["entry"]
+    if e == "hist":
+        return H.classify(c, io, drv)
+    if io.get("only_after_earlier_cases"):
+        return e + ":only-after-earlier-cases"
     if e == "lagrange":
         n = len(c["pairs"])
         f = io.get("func")
@@ -881,3 +1024,6 @@ def classify(c, io, drv):
     if e == "eq":
         return "eq-hash"
     return "unclassified"
+
+
+H._IMPL_OTHER.update({"expr": _impl_plain, "laws": _impl_plain, "eq": _impl_plain, "lagrange": _impl_plain})
